@@ -41,7 +41,7 @@ pub fn file_name(i: u8) -> &'static str {
 fn name_idx() -> impl Strategy<Value = u8> {
     prop_oneof![
         3 => 0u8..N_PLAIN_NAMES as u8,
-        2 => N_PLAIN_NAMES as u8..FILE_NAMES.len() as u8,
+        2 => N_PLAIN_NAMES as u8..(FILE_NAMES.len() - 1) as u8,
     ]
 }
 
